@@ -29,12 +29,14 @@ from sys import argv
 from time import sleep
 
 
-def parent_gone_or_changed(pid):
+def parent_gone_or_changed(pid, init_means_gone=True):
     current_parent = getppid()
-    if current_parent != pid or current_parent == 1:
+    if current_parent != pid or (init_means_gone and current_parent == 1):
         # A different parent means parent died and/or we got disowned, neither
         # of which should happen in normal conditions
-        # If PID 1 we are running under init and that also means we got disowned
+        # If PID 1 we are running under init and that also means we got
+        # disowned - unless we were told that our parent *is* process 1 (a
+        # worker that is the first process of a container)
         return True
 
     # Test if parent is still alive
@@ -48,7 +50,14 @@ def parent_gone_or_changed(pid):
 
 def main():
     lock = argv[1]
-    parent = getppid()
+    if len(argv) > 2:
+        # The worker told us its pid: getppid() would already be wrong if it
+        # died before we got here
+        parent = int(argv[2])
+        init_means_gone = False
+    else:
+        parent = getppid()
+        init_means_gone = True
     # 5 * 60 = once every 5 minutes
     counter = counter_start = 60
 
@@ -57,7 +66,7 @@ def main():
         sleep(5)
 
         # We die if our parent went away
-        if parent_gone_or_changed(parent):
+        if parent_gone_or_changed(parent, init_means_gone):
             break
 
         # but only update the lock once every 5 minutes for IO reasons
